@@ -149,15 +149,23 @@ class FunctionCurveBase(PointCurveBase):
         distances = [distance(t) for t in params]
         i_closest = int(np.argmin(distances))
 
-        # then refine between neighbours of the closest sample
-        lower = params[max(i_closest - 1, 0)]
-        upper = params[min(i_closest + 1, len(params) - 1)]
-        result = scipy.optimize.minimize_scalar(distance, bounds=(lower, upper), method="bounded", options={"xatol": 1e-12})
+        # then refine on both sides of the closest sample
+        # (separately; the curve can have a kink there)
+        best_param = params[i_closest]
+        best_distance = distances[i_closest]
 
-        if result.fun < distances[i_closest]:
-            return result.x
+        for i_other in (i_closest - 1, i_closest + 1):
+            if not (0 <= i_other < len(params)):
+                continue
 
-        return params[i_closest]
+            bounds = sorted((params[i_other], params[i_closest]))
+            result = scipy.optimize.minimize_scalar(distance, bounds=bounds, method="bounded", options={"xatol": 1e-12})
+
+            if result.fun < best_distance:
+                best_param = result.x
+                best_distance = result.fun
+
+        return best_param
 
     def get_point(self, param: float) -> NPPointType:
         self._check_param(param)
